@@ -27,6 +27,11 @@ SEMANTICS = [
     "only explicit raise statements and the documented raises of modelled library calls are control flow",
     "evaluation order, short-circuiting and `is None` follow CPython; no concurrency, no recursion, no metaclasses",
     "extraction drops docstrings, annotations, comments, warnings.warn calls and the text of exception messages (class and path condition are kept)",
+    "default arguments are evaluated per call; a mutable default (call / list / dict display) is outside the subset, never modelled as fresh",
+    "default frame of every contract: the code under contract stores nothing into caller-owned arrays / tables / record arrays (checked on every run: a store refutes the obligation)",
+    "objects under contract (Fluid, reservoirs) are built by the real constructor from one set of values and their public fields are then reassigned to the symbols of the contract (non-frozen dataclasses): state captured at construction shows as a dependence on *_at_construction symbols",
+    "library calls with unchecked preconditions on caller data (interp1d(assume_sorted=True), np.interp: increasing abscissa) generate that precondition as an obligation",
+    "each obligation runs under a CPU budget (600 s quick / 3600 s thorough) and each CAS normal-form attempt under a wall budget; exhausting one is UNDECIDED, never a verdict; PYTHONHASHSEED is pinned to 0",
 ]
 
 
@@ -63,6 +68,7 @@ def _run_one(i):
     t0 = time.time()
     from . import libmodels as lm
     del lm.LIB_PRE_UNMET[:]
+    del sx.ARG_DATA_WRITES[:]
     import signal
 
     class _ObTimeout(Exception):
@@ -83,6 +89,13 @@ def _run_one(i):
         v = ob.run()
         if not isinstance(v, be.Verdict):
             raise TypeError(f"obligation {ob.id} returned {type(v).__name__}")
+        if sx.ARG_DATA_WRITES and v.status == be.PROVED and ob.expect == be.PROVED:
+            # default frame of every contract here: a function under contract stores nothing into caller-owned data
+            # (arrays, tables, record arrays that existed when the call started) - on the unchanged tree none does.
+            # Such a store changes what the NEXT call on the same data sees, so the per-call postcondition just proved
+            # does not carry over to histories.
+            names = sorted(set(map(str, sx.ARG_DATA_WRITES)))
+            v = be.Verdict(be.REFUTED, "FRAME", witness={}, detail=f"the code under contract stores into caller-owned data {names} (arguments, or arrays held by the object, that existed before the call): the caller's data / the stored state is changed by a call that should only read it", seconds=time.time() - t0)
         if lm.LIB_PRE_UNMET and v.status == be.PROVED and ob.expect == be.PROVED:
             # the code under contract calls a library function whose precondition the code does not establish: the
             # facts assumed about that call (and hence this proof) are void
@@ -104,6 +117,8 @@ def _run_one(i):
     except ValueError:
         pass
     v.seconds = time.time() - t0
+    if os.environ.get("PYVC_SURVEY_WRITES") and sx.ARG_DATA_WRITES:
+        sys.stderr.write(f"SURVEY {ob.id}: writes to caller-owned data {sorted(set(map(str, sx.ARG_DATA_WRITES)))}\n")
     models = sorted(getattr(v, "models", []) or [])
     return i, v.status, v.backend, v.witness, v.detail, v.seconds, v.stats, getattr(v, "out_of_subset", False), models
 
